@@ -836,7 +836,12 @@ macro_rules! ubig_float_conversions {
                 if exp >= 0 {
                     result <<= exp as usize;
                 } else {
-                    result >>= (-exp) as usize;
+                    let shift = (-exp) as usize;
+                    if man != 0 && (man.trailing_zeros() as usize) < shift {
+                        // the float has a fractional part
+                        return Err(ConversionError::LossOfPrecision);
+                    }
+                    result >>= shift;
                 }
                 Ok(result)
             }
@@ -872,7 +877,12 @@ macro_rules! ibig_float_conversions {
                 if exp >= 0 {
                     result <<= exp as usize;
                 } else {
-                    result >>= (-exp) as usize;
+                    let shift = (-exp) as usize;
+                    if man != 0 && (man.trailing_zeros() as usize) < shift {
+                        // the float has a fractional part
+                        return Err(ConversionError::LossOfPrecision);
+                    }
+                    result >>= shift;
                 }
                 Ok(result)
             }
